@@ -347,6 +347,13 @@ func (x *Exec) nameValue(hint string, v Value) Value {
 
 // mergeValues builds ite(cond, a, b) leafwise.
 func mergeValues(cond T, a, b Value) (Value, bool) {
+	mergingValues = true
+	defer func() { mergingValues = false }()
+	if _, isO := a.(Opq); isO {
+		if _, isP := b.(Ptr); isP {
+			return a, true
+		}
+	}
 	return zipLeaves(a, b, func(p, q Sc) Sc { return Sc{T: mergeLeaf(cond, p.T, q.T), Signed: p.Signed} })
 }
 
